@@ -272,6 +272,7 @@ def correspond(run, child, docs):
     rng = run.rng
     exprs, impl, reqs = [], [], []
     ndis = 0
+    nhook = [0, 0]
     for lab, text in docs:
         if len(text) > 600:
             continue
@@ -326,10 +327,17 @@ def correspond(run, child, docs):
         for e, cellr in zip(req["errors"], r["ranges"].split(";")):
             if cellr != "PANIC" and e.get("wellformed", True):
                 for msg in range_problems(text, [int(x) for x in cellr.split(",")]):
+                    run.count("oracle_fail:hook-range")
+                    nhook[0] += 1
+                    if nhook[0] > 3:
+                        continue
                     run.violation("error_to_diagnostic(%s) gives range %s: %s" % (json.dumps(e), cellr, msg),
                                   {"kind": "fns", "text": text, "error": e, "range": cellr, "contradicts": "C43_range_in_doc"})
         if "PANIC" in json.dumps(r):
-            run.violation("a position function panicked: %s" % json.dumps(r)[:300], {"kind": "fns", "request": req, "contradicts": "C43_pos_no_panic"})
+            run.count("oracle_fail:hook-panic")
+            nhook[1] += 1
+            if nhook[1] <= 3:
+                run.violation("a position function panicked: %s" % json.dumps(r)[:300], {"kind": "fns", "request": req, "contradicts": "C43_pos_no_panic"})
     run.extra["disagreements"] = ndis
     run.extra["correspondence_documents"] = len(impl)
 
